@@ -46,7 +46,7 @@ def check(index, ctx):
             else:
                 st = [e for e in _pipe.evs(res, "pack") if e["fn"] == "stack"]
                 z = [c for c in _pipe.evs(res, "create") if c["fn"] == "zeros_like" and c["like"] == ["features"]]
-                ctx.require(bool(st) and all(e["dim"] == 0 for e in st) and bool(z), "I", "Stack: per-key gradients stacked along dim 0, zeros where a key is absent",
+                ctx.require(bool(st) and all(e["dim"] == 0 for e in st) and (bool(z) or run.variant.get("single")), "I", "Stack: per-key gradients stacked along dim 0, zeros where a key is absent",
                             "stack(dim=0) + zeros_like", f"stack dims {[e['dim'] for e in st]}, zero fill sites {len(z)}", st[0]["loc"] if st else "")
                 ones = [c for c in _pipe.evs(res, "create") if c["fn"] == "ones_like" and c["like"] == ["losses[i]"]]
                 ctx.require(bool(ones), "I", "Init: cotangent of each loss is ones", "ones_like(loss)", "task cotangent is not ones_like(loss)", "")
